@@ -19,8 +19,14 @@ func Copy(source, dest string) error {
 	defer out.Close()
 	_, err = io.Copy(out, in)
 	cerr := out.Close()
-	if err != nil {
-		return err
+	if err == nil {
+		err = cerr
 	}
-	return cerr
+	if err != nil {
+		/* Don't leave a partial copy behind: callers rely on a file
+		 * (such as a .dsc or .changes in an incoming queue) only being
+		 * there once it is complete. */
+		os.Remove(dest)
+	}
+	return err
 }
